@@ -166,7 +166,9 @@ class FnSpec:
         self.where_extra = where_extra
 
     def names(self):
-        return [p.name or f'p{i}' for i, p in enumerate(self.params)]
+        # deliberately neither ascending nor descending: a name-sorted forwarding order is observable
+        pool = ['pb', 'pc', 'pa', 'pe', 'pd', 'pf']
+        return [p.name or pool[i] for i, p in enumerate(self.params)]
 
     def source(self):
         d = DEPS[self.deps]
